@@ -4,6 +4,7 @@ import (
 	"fmt"
 	"os"
 	"runtime"
+	"runtime/pprof"
 )
 
 // Explore enumerates all schedules of body with at most `bound` preemptions (iteratively,
@@ -52,10 +53,13 @@ func exploreBound(bound int, maxExec int64, run func(s *Sched) (string, string),
 		s := &Sched{Choices: prefix}
 		outcome, fail := run(s)
 		res.Executions++
-		if res.Executions%20000 == 0 && os.Getenv("VERIF_MEMSTAT") != "" {
+		if res.Executions%50000 == 0 && os.Getenv("VERIF_MEMSTAT") != "" {
 			var ms runtime.MemStats
 			runtime.ReadMemStats(&ms)
 			fmt.Fprintf(os.Stderr, "memstat: executions=%d goroutines=%d heap=%dMB\n", res.Executions, runtime.NumGoroutine(), ms.HeapAlloc>>20)
+			if res.Executions == 50000 && os.Getenv("VERIF_MEMSTAT") == "goroutines" {
+				_ = pprof.Lookup("goroutine").WriteTo(os.Stderr, 1)
+			}
 		}
 		res.Steps += int64(len(s.Steps))
 		if s.Broken != "" {
